@@ -1,6 +1,7 @@
 import MxlVerif.Lemmas.C15Metric
 import MxlVerif.Lemmas.C15Rel
 import MxlVerif.Lemmas.C15RelNorm
+import MxlVerif.Lemmas.C15RelVec
 import MxlVerif.Generated.C15Loop
 /-!
 C15 — steady-state results are steady states; absence is reported as failure.
@@ -95,7 +96,8 @@ drift per search step is at least the tolerance, `‖d‖ ≥ tol`; a slower dri
 criterion at the first step and is reported as a steady state although it never stops moving. -/
 theorem C15_accumulation_fails_iff (d y0 : List Rat) (tol : Rat) (hlen : d.length = y0.length) (ht : 0 < tol) :
     ssRun Gen.copies Gen.checks (fun y => List.zipWith (· + ·) y d) (fun _ => true) (smallAbs tol) Gen.maxSteps y0
-      = .noSteadyState ↔ tol * tol ≤ normSq d := by
+      = .noSteadyState ↔ accAbsFails tol d = true := by
+  simp only [accAbsFails, decide_eq_true_eq]
   constructor
   · intro h
     have h0 := ((C15_no_false_success _ _ _ y0).mp h 0 (by decide)).2
@@ -110,10 +112,21 @@ tolerance at the LAST comparison of the budget, `tol·(y0 + (max_steps − 1)·d
 absolute-norm theorem `C15_accumulation_fails` does not need. -/
 theorem C15_rel_accumulation_fails_iff (d y0 tol : Rat) (hd : 0 < d) (hy : 0 < y0) (ht : 0 < tol) :
     ssRun Gen.copies Gen.checks (fun y => List.zipWith (· + ·) y [d]) (fun _ => true) (smallRel tol) Gen.maxSteps [y0]
-        = .noSteadyState ↔
-      tol * (y0 + ((Gen.maxSteps - 1 : Nat) : Rat) * d) ≤ d := by
+        = .noSteadyState ↔ accRelFails tol d y0 Gen.maxSteps = true := by
+  simp only [accRelFails, decide_eq_true_eq]
   rw [C15_loop_copies, C15_loop_checks_solver]
   exact rel_accumulation_none_iff d y0 tol hd hy ht (Gen.maxSteps - 1)
+
+/-- ... and for SEVERAL accumulating variables (all rates and all values positive): the relative step `Σ (d_i/(y_i+m·d_i))²` only
+shrinks with `m`, so the search is reported as failure if and only if the LAST comparison of the budget is still not small
+(`accRelVecFails`, evaluated by the driver as the class predicate of F-C15-2 in more than one dimension). -/
+theorem C15_rel_accumulation_vec_fails_iff (y d : List Rat) (h : posPair y d) (tol : Rat) (ht : 0 < tol) :
+    ssRun Gen.copies Gen.checks (accStep d) (fun _ => true) (smallRel tol) Gen.maxSteps y = .noSteadyState ↔
+      accRelVecFails tol d y Gen.maxSteps = true := by
+  rw [C15_loop_copies, C15_loop_checks_solver]
+  have := rel_accumulation_vec_none_iff y d h tol ht (Gen.maxSteps - 1)
+  simp only [accRelVecFails, Bool.not_eq_true']
+  exact this
 
 /-- ... and the finding itself: dx/dt = 1 (d = 100 per step) from x = 100001 with tolerance 1e-3 is reported as a steady
 state at the first step (kernel-evaluated), through `get_result()` as one row at t = 100 with x = 100101. -/
